@@ -60,6 +60,9 @@ type CmdSpec struct {
 	// of StdinData and then fails with ECONNRESET - a real read(2) error on standard input
 	StdinFailAfter int               `json:"stdin_fail_after"`
 	StdinData      []byte            `json:"-"`
+	// StdinPipe (with StdinData and Stdin "@inherited"): fd 0 is a pipe that delivers StdinData
+	// and then end of file - standard input as `cat file | command` gives it (not seekable)
+	StdinPipe bool `json:"stdin_pipe"`
 	Knobs          map[string]int    `json:"knobs"`
 	PoolPolicy     int               `json:"pool_policy"`
 	YieldDensity   int               `json:"yield_density"`
@@ -226,6 +229,18 @@ func (rc *RunCtx) RunCmd(spec CmdSpec) *CmdOutcome {
 		cmd.Stdin = sockB
 		defer sockB.Close()
 	}
+	var pipeW *os.File
+	if spec.StdinData != nil && spec.StdinPipe {
+		pr, pw, err := os.Pipe()
+		if err != nil {
+			co.Crashed = true
+			co.Stderr = err.Error()
+			return co
+		}
+		cmd.Stdin = pr
+		pipeW = pw
+		defer pr.Close()
+	}
 	if err := cmd.Start(); err != nil {
 		co.Crashed = true
 		co.Stderr = err.Error()
@@ -233,6 +248,12 @@ func (rc *RunCtx) RunCmd(spec CmdSpec) *CmdOutcome {
 	}
 	if sockA != nil {
 		sockA.Close()
+	}
+	if pipeW != nil {
+		go func(data []byte) {
+			pipeW.Write(data)
+			pipeW.Close()
+		}(spec.StdinData)
 	}
 	done := make(chan error, 1)
 	go func() { done <- cmd.Wait() }()
